@@ -107,7 +107,8 @@ def gen(c, chunkings):
             add(f=f, api="oneshot", msg=m, inplace=1 if n % 5 == 2 else 0, **p)
     # CCM / GCM formatting boundaries: every AAD length 0..40 (and the 2^16-2^8 encoding switch in thorough), every nonce and tag size
     for f in ("ccm_enc", "ccm_dec", "gcm_enc"):
-        for al in list(range(0, 41)) + ([65279, 65280, 65281] if not c.quick else []):
+        # (the CCM AAD length encoding switches from 2 octets to ff fe + 4 octets at 2^16 - 2^8 = 65280; GCM has no such switch and keeps the long ones for thorough)
+        for al in list(range(0, 41)) + ([65279, 65280, 65281, 65535, 65536] if (not c.quick or f != "gcm_enc") else []):
             p = params(f)
             p["aad"] = rb(al)
             n = rng.choice([0, 1, 16, 33])
